@@ -6,9 +6,13 @@
 (* invariants say what the statement says: the pool and the table are never changed and every    *)
 (* result is what the LAW gives for the ORIGINAL contents of the filters, however the condition  *)
 (* was spelled and whatever was called before.                                                   *)
+(* A call may also be made on the table the previous call returned (on = "last"): idempotence     *)
+(* and complementarity as histories,  r = t.inc(q1, q2); r.inc(q1, q2) = r; r.exc(q1, q2) empty.  *)
 (* The same machine, with the history as a variable, is the source of the S2C replay: cfgs       *)
 (* MC_IncSession_gen*.cfg print every history together with the outcomes the law allows and the  *)
 (* pool the caller must still see after every call; MC_IncSession_sim.cfg draws longer ones.     *)
+(* MC_IncSession_quick.cfg does both in one run (clauses checked on every history, no VIEW);      *)
+(* MC_IncSession_thorough.cfg checks the VIEW quotient (hist hidden) with 3 filters per call.     *)
 (* cfg MC_IncSession_adopt.cfg (Adopt = TRUE, `filters` is the caller's lone dict) must violate  *)
 (* PoolUntouched: the model is able to express what it forbids.                                  *)
 EXTENDS IncSession, TLC, Json
@@ -16,6 +20,7 @@ EXTENDS IncSession, TLC, Json
 CONSTANTS MaxCalls,     \* length of the histories
           MaxArgs,      \* filters per call (positional + keywords)
           FreeCalls,    \* the first FreeCalls calls of a history are arbitrary, the later ones take <= 1 positional filter ("probes")
+                        \* or repeat / complement the previous call on its own result ("echo")
           Scope,        \* "quick" | "thorough": which tables and pools
           Adopt         \* mechanism variant, see IncSession.tla
 
@@ -59,7 +64,7 @@ PoolsMore == {
     <<FDict(<<>>), FDict(<<>>), B(CVal(VInt(1)))>> }
 PoolsThorough == PoolsQuick \cup PoolsMore
 
-TableSet == IF Scope = "quick" THEN {G6, Empty2, Single} ELSE {G6, G4, G8, Dup, Empty2, Single}
+TableSet == IF Scope = "quick" THEN {G6, Empty2, Single} ELSE {G4, G8, Dup, Empty2, Single}
 PoolSet  == IF Scope = "quick" THEN PoolsQuick ELSE PoolsThorough
 
 Slots == 1..3
